@@ -42,10 +42,17 @@ def cells_events(rec, nfl):
         return [[int(v) for v in row] for row in X]
     # float files: linear amplifiers; a few non-positive fluorescence values
     for j in range(nfl):
-        fl[j] = fl[j] * 3.0
-        if n > 300:
+        fl[j] = np.abs(fl[j] * 3.0) + 1.0
+        # non-positive values in some channels only (which ones depends on the seed), strictly positive in the others
+        if n > 300 and (rec['seed'] >> j) & 1 == 0:
             fl[j][265:270] = [-5.0, 0.0, -0.5, -120.0, 0.0]
-    X = np.column_stack([np.clip(fsc, 1, None), np.clip(ssc, 1, None)] + fl + [t])
+    fsc = np.clip(fsc, 1, None)
+    ssc = np.clip(ssc, 1, None)
+    if n > 300 and rec['seed'] % 3 != 0:
+        # float data may exceed the declared range: a few scatter events beyond $PnR-1
+        fsc[280:283] = [R * 1.4, R * 2.0, R + 5.0]
+        ssc[283:285] = [R * 1.1, R * 3.0]
+    X = np.column_stack([fsc, ssc] + fl + [t])
     return [[float(np.float32(v)) for v in row] for row in X]
 
 
